@@ -218,3 +218,13 @@ impl Clone for IBig {
         self.0.clone_from(&source.0)
     }
 }
+
+#[cfg(dashu_verif)]
+impl IBig {
+    /// Verification hook (read-only): (raw signed capacity, length in words, stored inline?).
+    #[doc(hidden)]
+    #[inline]
+    pub fn verif_repr_probe(&self) -> (isize, usize, bool) {
+        self.0.verif_repr_probe()
+    }
+}
